@@ -303,13 +303,14 @@ class C15(Prop):
         'generating tree by C02)',
         'new nodes are used once (.copy() shares the expression object)',
     )
-    probes = ('edit', 'args')
+    probes = ('edit', 'args', 'reach')
     probed_every = 6
+    reach_required = ['data.TexNode.delete', 'data.TexNode.replace', 'data.TexNode.insert', 'data.TexNode.append', 'data.TexExpr.remove', 'data.TexExpr.insert', 'data.TexArgs.insert', 'data.TexArgs.pop', 'data.TexArgs.reverse', 'data.TexNode.string']
     min_nontrivial = 1000
     budget_s = {'quick': 280, 'thorough': 3600}
     exhaustive = {
         'quick': 'all histories of depth 2 over all valid (op, target, index) on 16 small documents',
-        'thorough': 'all histories of depth 2 on 16 small documents and of depth 3 on 6 of them',
+        'thorough': 'all histories of depth 2 on 16 small documents and of depth 3 on 3 of them',
     }
 
     def _dfs(self, src, depth, want, counter):
@@ -335,7 +336,7 @@ class C15(Prop):
         counter = [0]
         for i, src in enumerate(SMALL_DOCS):
             yield from self._dfs(src, 2, want, counter)
-            if tier != 'quick' and i % 3 == 0:
+            if tier != 'quick' and i in (0, 4, 8):
                 yield from self._dfs(src, 3, want, counter)
         k = counter[0]
         n = 1500 if tier == 'quick' else 50000
